@@ -482,7 +482,9 @@ class ThrottleStreamIO(StreamIO):
             if curr_throttle.limit:
                 tasks.append(asyncio.create_task(curr_throttle.wait()))
         if tasks:
-            await asyncio.wait(tasks)
+            # unlike asyncio.wait, gather cancels the waits when it is
+            # cancelled itself (aborted transfer, closed session)
+            await asyncio.gather(*tasks)
 
     def append(self, name, data, start):
         """
